@@ -2,7 +2,6 @@ package rules
 
 import (
 	"fmt"
-	"go/token"
 	"go/types"
 	"math/big"
 	"strings"
@@ -232,13 +231,18 @@ func c03Pref64(c *Ctx) {
 			okSrc := idx == 0 && exprCallIs(b, PkgConfig, "", "parseIPPrefix")
 			okLen := false
 			for _, a := range p.Atoms {
-				x, y, op, ok := effCmp(a)
-				if ok && op == token.EQL && x.Op == an.OpCall && x.Fn != nil && x.Fn.String() == "(net/netip.Prefix).Bits" && sameValue(x.Args[0], prefix) {
-					if k, isC := y.ConstInt(); isC {
+				x, set, member, ok := c.memberAtom(a)
+				if ok && member && x.Op == an.OpCall && x.Fn != nil && x.Fn.String() == "(net/netip.Prefix).Bits" && sameValue(x.Args[0], prefix) {
+					all := len(set) > 0
+					for _, k := range set {
 						switch k {
 						case 32, 40, 48, 56, 64, 96:
-							okLen = true
+						default:
+							all = false
 						}
+					}
+					if all {
+						okLen = true
 					}
 				}
 			}
